@@ -99,6 +99,36 @@ func stableDump(gap time.Duration) map[int64]gInfo {
 	return out
 }
 
+// dumpPair takes two dumps `gap` apart and returns (stable, all): `stable` as stableDump, `all` =
+// every goroutine of the second dump. A deadlock argument must be made over `all`: a goroutine that
+// is runnable, new, or changed between the dumps is able to make progress (and perhaps to release
+// what the parked ones wait for), so only when every relevant goroutine of `all` is also in `stable`
+// and parked may the parked ones be called stuck.
+func dumpPair(gap time.Duration) (stable map[int64]gInfo, all map[int64]gInfo) {
+	a := parseGoroutines(allStacks())
+	self := goid()
+	seen := false
+	first := map[int64]gInfo{}
+	for _, g := range a {
+		first[g.ID] = g
+		if g.ID == self {
+			seen = true
+		}
+	}
+	if !seen {
+		dumpBlind.Store(true)
+	}
+	time.Sleep(gap)
+	stable, all = map[int64]gInfo{}, map[int64]gInfo{}
+	for _, g := range parseGoroutines(allStacks()) {
+		all[g.ID] = g
+		if p, ok := first[g.ID]; ok && p.State == g.State && p.topTheineFrame() == g.topTheineFrame() {
+			stable[g.ID] = g
+		}
+	}
+	return
+}
+
 func parkedState(s string) bool {
 	return s == "chan receive" || s == "chan send" || s == "select" || strings.HasPrefix(s, "sync.") || s == "semacquire"
 }
@@ -118,6 +148,28 @@ func maintenanceState(gs map[int64]gInfo) string {
 			continue
 		}
 		found = true
+		if g.State != "select" || g.has(").drainWrite") || g.has(").sinkWrite") {
+			return "busy"
+		}
+	}
+	if !found {
+		return "absent"
+	}
+	return "idle"
+}
+
+// maintenanceStatePair is maintenanceState decided soundly from a dump pair: a maintenance
+// goroutine that exists in the second dump but is not identical in both dumps is busy.
+func maintenanceStatePair(stable, all map[int64]gInfo) string {
+	found := false
+	for id, g := range all {
+		if !g.has(").maintenance(") || (g.has(".maintenance.func1") && !g.has(").drainWrite")) {
+			continue
+		}
+		found = true
+		if _, same := stable[id]; !same {
+			return "busy"
+		}
 		if g.State != "select" || g.has(").drainWrite") || g.has(").sinkWrite") {
 			return "busy"
 		}
